@@ -187,11 +187,19 @@ class RegNone:
 
 
 class RegDict:
-    __slots__ = ('name', 'query')
+    __slots__ = ('name', 'query', 'rid')
 
     def __init__(self, name, query=None):
         self.name = name
         self.query = query
+        self.rid = fresh_id()     # identity for facts (never the Python id(), which is reused)
+
+
+def skey(s):
+    """Stable identity of a string value for facts: its cells when the length is fixed, else its sid."""
+    if isinstance(s, Str):
+        return ('cells',) + tuple(s.pre) if s.fixed else ('sid', s.sid)
+    return ('obj', repr(s))
 
 
 class Str:
